@@ -3,7 +3,7 @@
 The fault engine enumerates fault operators over the bytes of the two real .nzd files
 
     Trunc(p)          keep the first p bytes
-    Sub(p, b)         overwrite byte p            b in {0x00, 0xFF, orig^1, orig^0x80} \\ {orig}
+    Sub(p, b)         overwrite byte p            b in {0x00, 0xFF, orig^1, orig^0x80} \\ {orig}   ("base4")
     Ins(p, b)         insert a byte before p      b = 0x80
     Del(p)            delete byte p
     Sub^k             k <= 4 simultaneous substitutions inside one 6-byte framing window (field id, length, first payload bytes)
@@ -22,10 +22,13 @@ keyed by (call, exception type, innermost pyoda_time function).
 Two seams, one conformance check.  Faults that can change framing (header, field id / length bytes, Trunc, Ins, Del,
 Sub^k) go through the public from_stream on the whole file.  A single substitution strictly inside one field's payload
 leaves every other field's bytes and the framing untouched, so only that field's handler (and zones decoded from it) can
-behave differently; those faults are driven through the field seam: the real handler of the real builder on a
-_TzdbStreamField made from the faulted payload, then the real _TzdbStreamData / TzdbDateTimeZoneSource construction and the
-real for_id.  The string pool (on which every later handler depends) is re-run through ALL handlers.  That the seams agree
-is checked, not assumed: a stated subset of payload faults is run through both and must classify identically.
+behave differently; those faults are driven through the field seam: the REAL from_stream is called, with only its
+byte-by-byte framing reader and its "new empty builder" substituted so that it iterates over [the faulted field] and starts
+from the builder state the handlers produced for the other, undamaged fields (header check, handler dispatch, handler,
+completeness checks, source construction and any error translation run as in a public load); then the real for_id.  For
+the string pool (on which every later handler depends) ALL fields are fed again.  That the seams agree is checked, not
+assumed: a stated subset of payload faults is run through both and must classify identically (a difference degrades the
+check and is listed in the evidence; the public-seam run of that fault is judged by the oracle as usual).
 """
 from __future__ import annotations
 
@@ -66,7 +69,6 @@ try:
     from pyoda_time.time_zones.io._tzdb_stream_data import _TzdbStreamData
     from pyoda_time.time_zones.io._tzdb_stream_field import _TzdbStreamField
     from pyoda_time.time_zones.io._tzdb_stream_field_id import _TzdbStreamFieldId
-    _HANDLERS = _TzdbStreamData._TzdbStreamData__FIELD_HANDLERS
 except Exception as _e:  # noqa: BLE001
     _SEAM_ERROR = "%s: %s" % (type(_e).__name__, _e)
 
@@ -202,15 +204,28 @@ class FileCtx:
 
     # ---- field seam
     def prepare_seam(self):
+        """the builder state after the undamaged file: captured from a real from_stream run (no handler is called by us)"""
         self.lib_fields = [_TzdbStreamField._ctor(_TzdbStreamFieldId(f.fid), F.payload(self.data, f)) for f in self.fields]
         self.real_builder = _TzdbStreamData._Builder
-        b = self.real_builder()
-        for lf in self.lib_fields:
-            h = _HANDLERS.get(lf.id)
-            if h:
-                h(b, lf)
+        captured = []
+
+        def capture(*a, **k):
+            captured.append(self.real_builder(*a, **k))
+            return captured[-1]
+        saved_b = _TzdbStreamData.__dict__["_Builder"]
+        try:
+            _TzdbStreamData._Builder = capture
+            TzdbDateTimeZoneSource.from_stream(io.BytesIO(self.data))
+        finally:
+            _TzdbStreamData._Builder = saved_b
+        if len(captured) != 1:
+            raise SeamBroken("from_stream created %d builders" % len(captured))
+        b = captured[0]
         self.base = b
-        self.base_idmap = dict(b._tzdb_id_map)
+        # the stream-data constructor adds the canonical ids to the builder's map afterwards: start from the file's own map
+        self.base_idmap = dict(self.idmap)
+        if not set(self.base_idmap) <= set(b._tzdb_id_map) or set(b._zone_fields) != set(self.zone_id.values()):
+            raise SeamBroken("builder state does not match the model's reading of the file")
         self.base_zone_fields = dict(b._zone_fields)
 
     def seam_load(self, j, payload):
@@ -959,7 +974,9 @@ def run(ctx):
     ctx.rule = ("an execution is non-trivial when the damage was observed: some call raised, or the id set differs from the "
                 "undamaged file's; outcomes are (call, result class) pairs")
     ctx.assumptions = [
-        "fault alphabet: Trunc, Del, Ins(0x80), Sub with {0x00, 0xFF, orig^1, orig^0x80}, Sub^k (k<=4) inside 6-byte framing windows",
+        "fault alphabet: Trunc, Del, Ins(0x80), Sub with {0x00, 0xFF, orig^1, orig^0x80}, Sub^k (k<=4) inside 6-byte framing windows, "
+        "two maximal-length Sub^4 per field, role-aware Sub values on zone payloads (all month / flag / day-of-month codes of the "
+        "tail rules; orig+-1, orig+-2, 0x7F, 0x80, 1..12; all 256 values on the tail bytes of chosen zones)",
         "a single substitution strictly inside one field's payload can only change that field's handler and zones decoded from "
         "that field (string pool: every handler) - checked on the seam-equivalence subset, which runs both seams",
         "string-pool strings are opaque to zone decoding: at most 6 (quick) / 24 (thorough) dependent zones are fetched per pool or id-map fault (cap reported)",
